@@ -13,7 +13,7 @@ claimed = {
 }
 
 claimed["C15"] = ("contract-based deductive verification: weakest-precondition VCs from go/ssa + SMT lemmas over the order spec, discharged by z3/cvc5",
-  "The sort comparator is proved, for all pairs of core-tagged scalars whose text parses as tagged, to return exactly the sign given by the order specification cmpSpec (64-bit wrap-around modelled); the property's clauses (reflexive, antisymmetric, transitive, null<bool<rest, false<true, numbers by value whatever the spelling, strings by byte order) are proved as lemmas about cmpSpec.",
+  "The sort comparator is proved, for all pairs of core-tagged scalars whose text parses as tagged, to return exactly the sign given by the order specification cmpSpec (64-bit wrap-around modelled); the property's clauses (reflexive, antisymmetric, transitive, null<bool<rest, false<true, numbers by value whatever the spelling, strings by byte order) are proved as lemmas about cmpSpec; stability: sortByOperator hands its array to sort.Stable and no yq function calls an unstable library sort (table check over the real code).",
   "Trusted: go/ssa, yqv, spec library; assumed contracts for strconv.ParseInt/ParseFloat, time.Parse, strings.Compare/EqualFold, sort.Stable; floats as reals (no NaN); custom tags and non-default datetime layouts outside the lemma domain. Known findings carve out int/float beyond 2^53 and number/string mixes.",
   "DESIGN.md §5 C15")
 
@@ -23,11 +23,11 @@ claimed["C17"] = ("contract-based deductive verification: loop invariant over a 
   "DESIGN.md §5 C17")
 
 claimed["C09"] = ("contract-based deductive verification: shunting-yard loop invariants and expression-tree postconditions as VCs from go/ssa (z3/cvc5) + table checks over the operator table",
-  "ConvertToPostfix is proved to keep the operator stack non-decreasing in precedence between brackets (a tighter operator is emitted before a looser one that follows; equal precedences left open), to move only operations to the output, to pop closers to the matching opener or fail, and createExpressionTree to return either an error or a root whose arity matches its operator; the operator table is checked for arity 0..2, handlers, immutability and the documented class order. Partial: layout/comment insensitivity lives in the participle regexp lexer and is not decided; end-to-end equality with the parenthesised form is not decided.",
+  "ConvertToPostfix is proved to keep the operator stack non-decreasing in precedence between brackets (a tighter operator is emitted before a looser one that follows; equal precedences left open), to move only operations to the output, to pop closers to the matching opener or fail, and createExpressionTree to return either an error or a root whose arity matches its operator; the operator table is checked for arity 0..2, handlers, immutability and the documented class order. Executed exhaustively over the lexer rule table: every keyword of every word rule lexes to its own rule (F10 found and fixed). BOUNDED (not proved): layout/comment insensitivity (40 expressions x 9 separators through the real lexer; tab/CR defect found and fixed) and bracket balance (every token sequence of length <= 5, thorough <= 6, over 9 tokens whose brackets do not match must be refused; a stray-bracket defect found and fixed). Partial: end-to-end equality with the parenthesised form is not decided.",
   "Trusted: go/ssa, yqv, the class order file tables/precedence_classes.json (taken from the docs), lexer output well-formedness (precondition wfToken) until handleToken is under contract.",
   "DESIGN.md §5 C09")
 claimed["C11"] = ("contract-based deductive verification: zero-annotation panic-freedom obligations (index, slice, nil, type assertion, division, explicit panic, makeslice) and loop variants generated from go/ssa for every function under contract, discharged by z3/cvc5",
-  "For every function under contract for any property, each potentially panicking instruction is an obligation proved from the function's preconditions for all inputs; explicit panic calls must be unreachable; loops with a stated variant terminate. Partial: only the functions listed in the evidence file are covered; libraries, decoders driven by external parsers, recursion depth and memory are not.",
+  "For every function under contract for any property, each potentially panicking instruction is an obligation proved from the function's preconditions for all inputs; explicit panic calls must be unreachable; loops with a stated variant terminate. Plus a zero-annotation sweep over the 500-odd yq functions WITHOUT a contract: their index/slice/division/make/type-assertion/panic obligations are generated without preconditions, and the 443 provable that way (recorded by name in tables/c11_sweep_proved.json) are re-proved on every run, so a removed guard fails. Partial: nil dereferences outside the contract set, libraries, decoders driven by external parsers, recursion depth and memory are not covered; two cobra drivers and the explode walkers are excluded (flag nosafety, listed in evidence).",
   "Trusted: callers establish the stated preconditions (each call site inside the contract set is itself an obligation); assumed library models; trusted contracts listed in evidence.",
   "DESIGN.md §5 C11")
 
@@ -45,7 +45,7 @@ claimed["C07"] = ("contract-based deductive verification: frame (modifies) claus
   "Trusted: dispatcher contract; the operators' frames cover their own stores and the primitives they call (nocallframe for the interpreter re-entry).",
   "DESIGN.md §5 C07")
 claimed["C16"] = ("contract-based deductive verification: postconditions of the key/path primitives as VCs from go/ssa, discharged by z3/cvc5",
-  "getParsedKey returns the node's own text for map keys, nil without a key, the key text for !!str keys and the parsed integer otherwise; GetPath is non-empty for keyed nodes; AddChild gives an unkeyed child the index it is appended at and AddKeyValueChild pairs the value with the fresh key; Copy gives a fresh, unshared key; deleteFromArray renumbers the survivors. Partial: the well-formedness of containers rebuilt by sort/reverse/slice/collect (stale keys, F6) and the step from well-formedness to 'traversing path(n) returns n' are not decided here yet.",
+  "getParsedKey returns the node's own text for map keys, nil without a key, the key text for !!str keys and the parsed integer otherwise; GetPath is non-empty for keyed nodes; AddChild gives an unkeyed child the index it is appended at and AddKeyValueChild pairs the value with the fresh key; Copy gives a fresh, unshared key; deleteFromArray renumbers the survivors; to_entries gives a sequence element the key of its position and a map entry its own key/value pair; a replacement is always a fresh copy carrying the replaced node's parent and key. Partial: the well-formedness of containers rebuilt by sort/reverse/slice/collect (stale keys, F6) and the step from well-formedness to 'traversing path(n) returns n' are not decided here yet.",
   "Trusted: decimal printing injective; kidsOK invariant.",
   "DESIGN.md §5 C16")
 
@@ -54,7 +54,7 @@ claimed["C12"] = ("contract-based deductive verification over a ghost file-syste
   "Trusted: the ghost file-system contracts in the contract file (os.Rename/Create/Open/Remove/Chmod/Stat/CreateTemp, io.Copy); evaluation and printing are assumed not to touch the target except through these calls; the interface-level contract of writeInPlaceHandler.",
   "DESIGN.md §5 C12")
 claimed["C19"] = ("contract-based deductive verification: error-propagation obligations (ghost flag) generated without annotation from go/ssa for every yq function that returns an error, discharged by z3/cvc5; plus the in-place/exit contracts of the cmd package",
-  "For each of the 370 yq functions that return an error, at every return: if a callee's error was tested against nil (and not inspected, wrapped or deliberately recovered from — the recoveries are listed in tables/errprop_handled.json), the function returns a non-nil error — for all inputs; evaluateSequence/evaluateAll return their evaluation error through the deferred in-place finisher. Partial: -e bookkeeping of printNode, exit codes in main/cobra, format auto-detection tables and 'nothing dropped inside library encoders' are not decided yet.",
+  "For each of the 370 yq functions that return an error, at every return: if a callee's error was tested against nil (and not inspected, wrapped or deliberately recovered from — the recoveries are listed in tables/errprop_handled.json), the function returns a non-nil error — for all inputs; evaluateSequence/evaluateAll return their evaluation error through the deferred in-place finisher; the XML encoder refuses a non-scalar attribute instead of dropping it; printNode's -e bookkeeping never resets. Partial: -e bookkeeping of printNode, exit codes in main/cobra, format auto-detection tables and 'nothing dropped inside library encoders' are not decided yet.",
   "Trusted: the classification of an error value as 'plain' (only compared with nil) is syntactic; handled-error table; external libraries.",
   "DESIGN.md §5 C19")
 
@@ -64,7 +64,7 @@ claimed["C10"] = ("contract-based deductive verification: call-site assertions, 
   "DESIGN.md §5 C10")
 
 claimed["C01"] = ("contract-based deductive verification: combinator laws as call-site assertions over the arguments of every evaluation (ghost log of the last two result lists), loop invariants over container/list, and scalar kernels against spec functions with 64-bit wrap-around, as VCs from go/ssa discharged by z3/cvc5",
-  "Proved for all inputs: `|` evaluates its left side on the input context and its right side on exactly the left side's result list, and returns the right side's result list; `,` evaluates both sides on the input and returns the left results followed by the right results; binary operators (doCrossFunc/resultsForRHS/crossFunctionWithPrefs) evaluate the left side once per group, the right side once per left result, call the calculation on (left_i, right_j) for i outer / j inner in list order, append results in that order, and group per input node unless every input is marked EvaluateTogether; select keeps exactly the inputs whose predicate (evaluated read-only on that input alone) yields some truthy result; array indexing returns element i, or n+i for negative i, errors only for non-numbers or i < -n; `.[a:b]` clamps and copies elements from..to-1 (F2 panic found here and fixed); integer +, -, *, % equal the int64 (wrap-around) result of the parsed operands printed in decimal, `% 0` is an error, adding/subtracting/modulo of undefined type pairs is an error. Known finding F16 (`., .`). Partial: the denotation of each handler is the trusted dispatcher contract; float arithmetic and formatting, hex/octal reprinting, string operators, collect/object construction, group_by/unique/flatten/entries/contains, reduce/variables, length/keys/has and the lexer/parser half (see C09) are not decided here.",
+  "Proved for all inputs: `|` evaluates its left side on the input context and its right side on exactly the left side's result list, and returns the right side's result list; `,` evaluates both sides on the input and returns the left results followed by the right results; binary operators (doCrossFunc/resultsForRHS/crossFunctionWithPrefs) evaluate the left side once per group, the right side once per left result, call the calculation on (left_i, right_j) for i outer / j inner in list order, append results in that order, and group per input node unless every input is marked EvaluateTogether; select keeps exactly the inputs whose predicate (evaluated read-only on that input alone) yields some truthy result; any/all: without a condition the answer is the existential over the elements, with one every element is asked read-only and a 'no' is given only after all were asked; array indexing returns element i, or n+i for negative i, errors only for non-numbers or i < -n; `.[a:b]` clamps and copies elements from..to-1 (F2 panic found here and fixed); integer +, -, *, % equal the int64 (wrap-around) result of the parsed operands printed in decimal, `% 0` is an error, adding/subtracting/modulo of undefined type pairs is an error. Known finding F16 (`., .`). Partial: the denotation of each handler is the trusted dispatcher contract; float arithmetic and formatting, hex/octal reprinting, string operators, collect/object construction, group_by/unique/flatten/entries/contains, reduce/variables, length/keys/has and the lexer/parser half (see C09) are not decided here.",
   "Trusted: dispatcher contract (its result list is logged in ghost state; it writes only document nodes), variableLoop (`as $x`), functype contracts of calculations; strconv/fmt models (Sprintf \"%v\" of an int64 is its decimal text); a list made by list.New() and handed only to list methods or non-leaking callees is not returned by unrelated calls (checked syntactically).",
   "DESIGN.md §5 C01")
 
